@@ -33,6 +33,9 @@ pub struct OracleState {
     /// retain() calls in flight, and whether the idle queue was (or may have been) empty at some
     /// moment of the call
     pub retain_open: BTreeMap<usize, bool>,
+    /// status() calls of actors in flight -> (most callers inside get(), most objects existing or
+    /// being created) at any instant of the call so far
+    pub status_open: BTreeMap<usize, (usize, usize)>,
     pub last_run_step: BTreeMap<usize, u64>,
     /// objects idle right before close() was invoked
     pub idle_at_close: Vec<u32>,
@@ -70,6 +73,7 @@ impl Default for OracleState {
             idle_prev_valid: false,
             retain_idle_at_lock: BTreeMap::new(),
             retain_open: BTreeMap::new(),
+            status_open: BTreeMap::new(),
             last_run_step: BTreeMap::new(),
             idle_at_close: Vec::new(),
             closer: None,
@@ -344,6 +348,34 @@ pub fn on_close_done(w: &mut MWorld, opi: usize) {
         }
     }
 }
+fn status_bounds(w: &MWorld) -> (usize, usize) {
+    let existing = w.objs.iter().filter(|o| o.destroyed.is_none()).count();
+    (gets_in_progress(w).len() + if w.ctl_op.is_some() { 1 } else { 0 }, existing + w.n_inflight_creates())
+}
+pub fn on_status_invoke(w: &mut MWorld, opi: usize) {
+    if is(w, "C11") {
+        let b = status_bounds(w);
+        let _ = w.orc.status_open.insert(opi, b);
+    }
+}
+/// A status() that runs while other threads are inside the pool: the figures it returns must be
+/// plausible for some instant of the call.
+pub fn on_status_done(w: &mut MWorld, opi: usize) {
+    let Some((in_get, objs)) = w.orc.status_open.remove(&opi) else { return };
+    let now = status_bounds(w);
+    let (in_get, objs) = (in_get.max(now.0), objs.max(now.1));
+    if let Some(OpRes::Status(st)) = w.ops[opi].result.clone() {
+        if st.waiting > in_get {
+            w.violate("C11", "waiting_le_in_get", format!("status() returned waiting = {} but at most {} callers were inside get() at any instant of the call ({:?})", st.waiting, in_get, st));
+        } else if st.size > objs {
+            w.violate("C11", "size_le_existing", format!("status() returned size = {} but at most {} objects existed or were being created at any instant of the call ({:?})", st.size, objs, st));
+        } else if st.available > st.size {
+            w.violate("C11", "available_le_size", format!("{:?}", st));
+        } else {
+            w.cnt.probe("concurrent_status_judged");
+        }
+    }
+}
 pub fn on_retain_invoke(w: &mut MWorld, opi: usize) {
     if is(w, "C09") {
         c03_on_invoke(w, opi);
@@ -545,6 +577,15 @@ pub fn after_step(w: &mut MWorld, _info: &SimInfo) -> Option<Violation> {
                 *v = true;
             }
         }
+    }
+    if !w.orc.status_open.is_empty() {
+        let b = status_bounds(w);
+        for v in w.orc.status_open.values_mut() {
+            v.0 = v.0.max(b.0);
+            v.1 = v.1.max(b.1);
+        }
+    }
+    if let Some(sn) = &snap {
         w.orc.idle_prev = sn.idle.clone();
         w.orc.idle_prev_valid = true;
     }
@@ -933,7 +974,8 @@ pub fn c04_check_get(w: &MWorld, opi: usize) -> Option<Violation> {
                     return None;
                 }
                 CallRes::Dropped | CallRes::InFlight => {
-                    let timeout_ok = op.eff.1.map(|t| t > 0).unwrap_or(false) && cfg.runtime;
+                    // (a zero timeout polls create() once and gives up if it is not ready at once)
+                    let timeout_ok = op.eff.1.is_some() && cfg.runtime;
                     let ok = ended_early(&res)
                         || (res == OpRes::GetErr(ErrV::TimeoutCreate) && timeout_ok)
                         || (res == OpRes::GetErr(ErrV::NoRuntime) && !cfg.runtime && !first.polled);
@@ -1052,16 +1094,14 @@ pub fn c04_check_get(w: &MWorld, opi: usize) -> Option<Violation> {
                     return None;
                 }
                 CallRes::Dropped | CallRes::InFlight => {
-                    let is_recycle_timeout = *ek == CallKind::Recycle
-                        && op.eff.2.map(|t| t > 0).unwrap_or(false)
-                        && cfg.runtime;
+                    let is_recycle_timeout = *ek == CallKind::Recycle && op.eff.2.is_some() && cfg.runtime;
                     if i == calls.len() && ended_early(&res) {
                         return None;
                     }
                     // a per-call recycle timeout on a pool without runtime: the recycle future is
                     // dropped unpolled and the call fails with NoRuntimeSpecified (C10)
                     if *ek == CallKind::Recycle
-                        && op.eff.2.map(|t| t > 0).unwrap_or(false)
+                        && op.eff.2.is_some()
                         && !cfg.runtime
                         && !c.polled
                         && i == calls.len()
@@ -1306,7 +1346,27 @@ fn c13v(w: &mut MWorld, clause: &str, d: String) {
     w.violate("C13", clause, d);
 }
 
-pub fn c13_on_handout(w: &mut MWorld, id: u32, m: MSeen, prev: Option<MSeen>, h: u32) {
+pub fn c13_on_handout(w: &mut MWorld, id: u32, m: MSeen, prev: Option<MSeen>, h: u32, since_ms: Option<u64>) {
+    // absolute position of the stamps on the simulated clock: an object handed out for the first
+    // time was created, a reused one recycled, inside the get() that hands it out
+    if let Some(since) = since_ms {
+        let now_ms = engine::now_ms();
+        let now = crate::mworld::Instant::now();
+        let at = |t: crate::mworld::Instant| -> u64 { now_ms.saturating_sub(now.saturating_duration_since(t).as_millis() as u64) };
+        if h == 1 {
+            let c = at(m.created);
+            if c < since || m.created > now {
+                c13v(w, "created_is_creation_time", format!("object #{id} was created inside a get() that started at {since} ms, Metrics::created says {c} ms"));
+                return;
+            }
+        } else if let Some(r) = m.recycled {
+            let rm = at(r);
+            if rm < since || r > now {
+                c13v(w, "recycled_is_last_recycle_time", format!("object #{id} was recycled inside a get() that started at {since} ms, Metrics::recycled says {rm} ms"));
+                return;
+            }
+        }
+    }
     let first = w.objs[id as usize].first_created;
     if let Some(f) = first {
         if f != m.created {
